@@ -394,6 +394,22 @@ pub fn open_loop(run: &mut Run, cfg: &SCfg, t0: u64, iters: usize, clears: bool,
     let ops = simsock::take_ops();
     let chan = match chan {
         Ok(Ok(c)) => {
+            // C11: the socket probes are handed to is of the trace's own protocol and family (the kernel fills in the
+            // next header / protocol of what a raw socket sends from the socket's type, not from the bytes)
+            let fam = if cfg.v6() { '6' } else { '4' };
+            let want: Option<String> = match cfg.proto {
+                'i' => Some(format!("new:icmp{fam}:{}", u8::from(cfg.privileged))),
+                'u' => Some(format!("new:udp{fam}:{}", u8::from(cfg.privileged))),
+                _ => None,
+            };
+            let send_socks: Vec<&String> = ops.iter().filter(|o| o.starts_with("new:icmp") || o.starts_with("new:udp")).collect();
+            if let Some(w) = want {
+                if send_socks.len() != 1 || !send_socks[0].starts_with(&w) {
+                    run.fail("c11-stack-send-socket", format!("{ctx}: probes of this trace are sent through {send_socks:?}, expected one socket `{w}…`"));
+                }
+            } else if !send_socks.is_empty() {
+                run.fail("c11-stack-send-socket", format!("{ctx}: a raw send socket {send_socks:?} for a trace that sends through per-probe sockets"));
+            }
             run.op(ctx.clone(), format!("ok {}", show_ops(&ops)));
             c
         }
